@@ -40,6 +40,8 @@ def judge_runs(prop, shards, out, checks=None, nontrivial=lambda an: an.total_ca
             if an.struct_errors:
                 out.inconclusive_shard("unreadable log for config %s: %s" % (run.cfg_line, an.struct_errors[:2]))
                 continue
+            if an.cfg.vos:
+                agg["os_timer_path_runs_on_scripted_clock"] = agg.get("os_timer_path_runs_on_scripted_clock", 0) + 1
             if an.unpublished:
                 agg["unpublished_slots"] = agg.get("unpublished_slots", 0) + an.unpublished
             if nontrivial(an):
